@@ -86,6 +86,11 @@ let run_case (toks : string list) : n list option * n list option =
   | ["CRS"; h] -> same (run_crs (bytes_of_tok h))
   | ["CRC"; h] -> let b = bytes_of_tok h in (run_crc b, Some [s_crc b])
   | ["DSC"; h] -> same (run_dsc (bytes_of_tok h))
+  | ["DSC1"; h] ->
+      (* Descriptor::from_bytes on a slice that goes on behind its first descriptor = the one-item loop made of that descriptor *)
+      let b = bytes_of_tok h in
+      let rec take k l = if k = 0 then [] else (match l with [] -> [] | x :: r -> x :: take (k - 1) r) in
+      (match b with _ :: l :: _ -> same (run_dsc (take (2 + int_of_n l) b)) | _ -> same (run_dsc b))
   | ["PAT"; h] -> same (run_pat (bytes_of_tok h))
   | ["PMT"; h] -> same (run_pmt (bytes_of_tok h))
   | "SEC" :: f :: pk -> same (run_sec (num (string_of_int ((int_of_string f) lor (if !fuzzing then 8 else 0)))) (List.map bytes_of_tok pk))
@@ -107,7 +112,7 @@ let () =
        let toks = String.split_on_char ' ' line |> List.filter (fun s -> s <> "" && s.[0] <> '#') in
        (match toks with
         | "DMXQ" :: _ -> output_string oc "SKIP\n"; output_string os "SKIP\n"
-        | "SECA" :: _ -> output_string oc "0 20\n"; output_string os "0 20\n"        (* the model's claim: no allocation; 20 deliveries *)
+        | "SECA" :: _ -> output_string oc "0 20 0\n"; output_string os "0 20 0\n"        (* the model's claim: no allocation; 20 deliveries *)
         | _ -> let (m, sp) = run_case toks in print_obs oc m; print_obs os sp)
      done
    with End_of_file -> ());
